@@ -1,4 +1,5 @@
 use crate::chess::bitboard::Bitboard;
+use crate::chess::colour::Colour;
 use crate::chess::mv::Mv;
 use crate::chess::piece::Piece;
 use crate::chess::position::Position;
@@ -117,6 +118,11 @@ impl Position {
         self.us_qsc &= mv.from != ksq_us && mv.from != qsc_us && mv.to != qsc_us;
         self.them_ksc &= mv.from != ksq_them && mv.from != ksc_them && mv.to != ksc_them;
         self.them_qsc &= mv.from != ksq_them && mv.from != qsc_them && mv.to != qsc_them;
+
+        // Fullmove counter
+        if self.turn == Colour::Black {
+            self.fullmoves += 1;
+        }
 
         self.flip();
 
